@@ -572,4 +572,330 @@ theorem dec_recal_ok_allowed {sf : SF K} {f : Functional} {lv : K} {ys : List K}
 
 end Struct2
 
+
+/-! ## A4. Errors of the first two stages -/
+section Struct3
+variable {K : Type} [LE K] [DecidableLE K] [LT K] [DecidableLT K]
+  [Add K] [Sub K] [Mul K] [Div K] [Neg K] [Zero K] [One K] [NatCast K] [Min K] [Max K]
+  [ScoreOps K] [Inhabited K]
+
+/-- the level stage can only fail with `ValueError` -/
+theorem dec_lv_error {sf : SF K} {fn : Option Functional} {lvGiven : Option K} {e : Err}
+    (h : dec_lv sf fn lvGiven = .error e) : e = .valueError := by
+  unfold dec_lv at h
+  cases lvGiven with
+  | some l => cases h
+  | none =>
+    simp only at h
+    split at h
+    · cases hl : sfLevel sf with
+      | none => rw [hl] at h; cases h; rfl
+      | some l => rw [hl] at h; cases h
+    · cases h
+
+/-- the validation of functional and level can only fail with `ValueError` -/
+theorem dec_validate_error {sf : SF K} {fnGiven : Option (Option Functional)} {lvGiven : Option K}
+    {e : Err} (h : dec_validate sf fnGiven lvGiven = .error e) : e = .valueError := by
+  unfold dec_validate at h
+  cases hl : dec_lv sf (dec_fn sf fnGiven) lvGiven with
+  | error e' =>
+    rw [hl] at h
+    cases h
+    exact dec_lv_error hl
+  | ok l =>
+    rw [hl, dec_ok_bind] at h
+    cases hf : dec_fn sf fnGiven with
+    | none => rw [hf] at h; cases h; rfl
+    | some f =>
+      rw [hf] at h
+      simp only [pure_bind] at h
+      split at h
+      · cases h; rfl
+      · cases h
+
+/-- a successful validation: the functional is known, the level is in `(0,1)` when it matters, and
+`median` has become the quantile at level `half` -/
+theorem dec_validate_ok {sf : SF K} {fnGiven : Option (Option Functional)} {lvGiven : Option K}
+    {f : Functional} {lv : K} (h : dec_validate sf fnGiven lvGiven = .ok (f, lv)) :
+    ∃ f₀ lv₀, dec_fn sf fnGiven = some f₀ ∧ dec_lv sf (some f₀) lvGiven = .ok lv₀ ∧
+      ¬ ((f₀ = .expectile ∨ f₀ = .quantile) ∧ (lv₀ ≤ 0 ∨ 1 ≤ lv₀)) ∧
+      (f, lv) = (if f₀ = .median then (Functional.quantile, (half : K)) else (f₀, lv₀)) := by
+  unfold dec_validate at h
+  cases hl : dec_lv sf (dec_fn sf fnGiven) lvGiven with
+  | error e' => rw [hl] at h; cases h
+  | ok l =>
+    rw [hl, dec_ok_bind] at h
+    cases hf : dec_fn sf fnGiven with
+    | none => rw [hf] at h; cases h
+    | some f₀ =>
+      rw [hf] at h hl
+      simp only [pure_bind] at h
+      split at h
+      · cases h
+      · rename_i hc
+        exact ⟨f₀, l, rfl, hl, hc, (Except.ok.inj h).symm⟩
+
+/-- the effective functional is never `median` -/
+theorem dec_validate_ne_median {sf : SF K} {fnGiven : Option (Option Functional)}
+    {lvGiven : Option K} {f : Functional} {lv : K}
+    (h : dec_validate sf fnGiven lvGiven = .ok (f, lv)) : f ≠ .median := by
+  obtain ⟨f₀, lv₀, _, _, _, he⟩ := dec_validate_ok h
+  by_cases hm : f₀ = .median
+  · rw [if_pos hm] at he
+    rw [(Prod.mk.inj he).1]; decide
+  · rw [if_neg hm] at he
+    rw [(Prod.mk.inj he).1]; exact hm
+
+/-- unknown functional name: `ValueError` -/
+theorem dec_validate_unknown (sf : SF K) (lvGiven : Option K) :
+    dec_validate sf (some none) lvGiven = .error .valueError := by
+  cases h : dec_validate sf (some none) lvGiven with
+  | error e => rw [dec_validate_error h]
+  | ok p =>
+    obtain ⟨f₀, _, hf, _⟩ := dec_validate_ok (f := p.1) (lv := p.2) h
+    cases hf
+
+/-- level outside `(0,1)` for an expectile / quantile: `ValueError` -/
+theorem dec_validate_level (sf : SF K) (fnGiven : Option (Option Functional)) (lvGiven : Option K)
+    (f : Functional) (l : K) (hfn : dec_fn sf fnGiven = some f)
+    (hlv : dec_lv sf (some f) lvGiven = .ok l) (hf : f = .expectile ∨ f = .quantile)
+    (hl : l ≤ 0 ∨ 1 ≤ l) : dec_validate sf fnGiven lvGiven = .error .valueError := by
+  cases h : dec_validate sf fnGiven lvGiven with
+  | error e => rw [dec_validate_error h]
+  | ok p =>
+    obtain ⟨f₀, lv₀, hf₀, hl₀, hc, _⟩ := dec_validate_ok (f := p.1) (lv := p.2) h
+    rw [hfn] at hf₀
+    cases hf₀
+    rw [hlv] at hl₀
+    cases hl₀
+    exact absurd ⟨hf, hl⟩ hc
+
+/-- the shape checks can only fail with `ValueError` (lengths) or `Other` (empty `y`) -/
+theorem dec_shape_error_of_col {ys : List K} {cols : List (List K)} (w : Option (List K))
+    (h : ∃ c ∈ cols, c.length ≠ ys.length) : dec_shape ys cols w = .error .valueError := by
+  unfold dec_shape
+  have h1 : cols.any (fun c => decide (c.length ≠ ys.length)) = true := by
+    obtain ⟨c, hc, hne⟩ := h
+    exact List.any_eq_true.mpr ⟨c, hc, decide_eq_true hne⟩
+  simp only [if_pos h1]
+  rfl
+
+theorem dec_shape_error_of_weights {ys : List K} (cols : List (List K)) {w' : List K}
+    (h : w'.length ≠ ys.length) : dec_shape ys cols (some w') = .error .valueError := by
+  by_cases hc : ∃ c ∈ cols, c.length ≠ ys.length
+  · exact dec_shape_error_of_col _ hc
+  unfold dec_shape
+  have h1 : ¬ cols.any (fun c => decide (c.length ≠ ys.length)) = true := by
+    intro h1
+    obtain ⟨c, hc', hne⟩ := List.any_eq_true.mp h1
+    exact hc ⟨c, hc', of_decide_eq_true hne⟩
+  simp only [if_neg h1, if_pos h]
+  rfl
+
+/-- `decompose` fails with `ValueError` as soon as a stage up to the shape checks does -/
+theorem dec_error_of_validate {sf : SF K} {fnGiven : Option (Option Functional)}
+    {lvGiven : Option K} (ys : List K) (cols : List (List K)) (w : Option (List K)) {e : Err}
+    (h : dec_validate sf fnGiven lvGiven = .error e) :
+    decompose sf fnGiven lvGiven ys cols w = .error e := by
+  rw [dec_eq, h]; rfl
+
+theorem dec_error_of_shape {sf : SF K} {fnGiven : Option (Option Functional)}
+    {lvGiven : Option K} {ys : List K} {cols : List (List K)} {w : Option (List K)}
+    (h : dec_shape ys cols w = .error .valueError) :
+    decompose sf fnGiven lvGiven ys cols w = .error .valueError := by
+  rw [dec_eq]
+  cases hv : dec_validate sf fnGiven lvGiven with
+  | error e => rw [dec_validate_error hv]; rfl
+  | ok p => rw [dec_ok_bind, h]; rfl
+
+end Struct3
+
+/-! ## A5. Aliases: the mean ignores the level; explicit = inferred -/
+section Struct4
+variable {K : Type} [LE K] [DecidableLE K] [LT K] [DecidableLT K]
+  [Add K] [Sub K] [Mul K] [Div K] [Neg K] [Zero K] [One K] [NatCast K] [Min K] [Max K]
+  [ScoreOps K] [Inhabited K]
+
+/-- the mean fit ignores the level -/
+theorem dec_isoReg_mean_level (α α' : K) (inc : Bool) (y : List K) (w : Option (List K)) :
+    isoReg (some .mean) α inc y w = isoReg (some .mean) α' inc y w := by
+  unfold isoReg
+  simp
+
+theorem dec_isoFit_mean_level (α α' : K) (inc : Bool) (X y : List K) (w : Option (List K)) :
+    isoFit (some .mean) α inc X y w = isoFit (some .mean) α' inc X y w := by
+  unfold isoFit
+  simp only [dec_isoReg_mean_level α α']
+
+theorem dec_repair_mean_level (α α' : K) (recal : List K) (w : Option (List K)) (ymin : K) :
+    repair .mean α recal w ymin = repair .mean α' recal w ymin := rfl
+
+theorem dec_recal_mean_level (sf : SF K) (α α' : K) (ys : List K) (w : Option (List K))
+    (x : List K) : dec_recal sf .mean α ys w x = dec_recal sf .mean α' ys w x := by
+  unfold dec_recal
+  rw [dec_isoFit_mean_level α α']
+  rfl
+
+theorem dec_row_mean_level (sf : SF K) (α α' : K) (ys : List K) (w : Option (List K)) (sm : K)
+    (x : List K) : dec_row sf .mean α ys w sm x = dec_row sf .mean α' ys w sm x := by
+  unfold dec_row
+  rw [dec_recal_mean_level sf α α']
+
+theorem dec_marginal_mean_level (sf : SF K) (α α' : K) (ys : List K) (w : Option (List K)) :
+    dec_marginal sf .mean α ys w = dec_marginal sf .mean α' ys w := rfl
+
+/-- from the shape checks on: the mean ignores the level -/
+theorem dec_stages_mean_level (sf : SF K) (α α' : K) (ys : List K) (cols : List (List K))
+    (w : Option (List K)) :
+    (do let q ← dec_marginal sf .mean α ys w; cols.mapM (dec_row sf .mean α ys w q.2))
+      = (do let q ← dec_marginal sf .mean α' ys w; cols.mapM (dec_row sf .mean α' ys w q.2)) := by
+  rw [dec_marginal_mean_level sf α α']
+  have : ∀ sm, dec_row sf .mean α ys w sm = dec_row sf .mean α' ys w sm :=
+    fun sm => funext (dec_row_mean_level sf α α' ys w sm)
+  simp only [this]
+
+/-- `decompose` in terms of the validated pair -/
+theorem dec_eq_of_validate {sf : SF K} {fnGiven : Option (Option Functional)} {lvGiven : Option K}
+    {p : Functional × K} (h : dec_validate sf fnGiven lvGiven = .ok p) (ys : List K)
+    (cols : List (List K)) (w : Option (List K)) :
+    decompose sf fnGiven lvGiven ys cols w = (do
+      dec_shape ys cols w
+      let q ← dec_marginal sf p.1 p.2 ys w
+      cols.mapM (dec_row sf p.1 p.2 ys w q.2)) := by
+  rw [dec_eq, h]; rfl
+
+/-- **explicit = inferred**: passing the score's own functional and level explicitly changes
+nothing (results and errors alike).  `sfLevel sf = none` (log loss) means `level=None`. -/
+theorem dec_alias_explicit (sf : SF K) (ys : List K) (cols : List (List K)) (w : Option (List K)) :
+    decompose sf none none ys cols w
+      = decompose sf (some (sfFunctional sf)) (sfLevel sf) ys cols w := by
+  rw [dec_eq sf none none, dec_eq sf (some (sfFunctional sf)) (sfLevel sf)]
+  unfold dec_validate
+  have hfn : dec_fn sf (some (sfFunctional sf)) = dec_fn sf none := rfl
+  rw [hfn]
+  cases hf : dec_fn sf none with
+  | none =>
+    have e1 : dec_lv sf none none = .ok half := rfl
+    have e2 : dec_lv sf none (sfLevel sf) = .ok (match sfLevel sf with | some l => l | none => half) := by
+      unfold dec_lv
+      cases sfLevel sf <;> rfl
+    rw [e1, e2]
+    rfl
+  | some f =>
+    cases hl : sfLevel sf with
+    | none => rfl
+    | some l =>
+      cases f with
+      | mean =>
+        have e1 : dec_lv sf (some .mean) none = .ok half := rfl
+        have e2 : dec_lv sf (some .mean) (some l) = .ok l := rfl
+        rw [e1, e2]
+        exact congrArg (fun t => dec_shape ys cols w >>= fun _ => t)
+          (dec_stages_mean_level sf half l ys cols w)
+      | median =>
+        have e1 : dec_lv sf (some .median) none = .ok half := rfl
+        have e2 : dec_lv sf (some .median) (some l) = .ok l := rfl
+        rw [e1, e2]
+        rfl
+      | expectile =>
+        have e1 : dec_lv sf (some .expectile) none = .ok l := by
+          unfold dec_lv; rw [hl]; rfl
+        have e2 : dec_lv sf (some .expectile) (some l) = .ok l := rfl
+        rw [e1, e2]
+      | quantile =>
+        have e1 : dec_lv sf (some .quantile) none = .ok l := by
+          unfold dec_lv; rw [hl]; rfl
+        have e2 : dec_lv sf (some .quantile) (some l) = .ok l := rfl
+        rw [e1, e2]
+
+end Struct4
+
+/-! ## A6. Columns are treated independently; `median` -/
+section Struct5
+variable {K : Type} [LE K] [DecidableLE K] [LT K] [DecidableLT K]
+  [Add K] [Sub K] [Mul K] [Div K] [Neg K] [Zero K] [One K] [NatCast K] [Min K] [Max K]
+  [ScoreOps K] [Inhabited K]
+
+/-- **each column gets the row it would get alone** -/
+theorem dec_column_independent {sf : SF K} {fn : Option (Option Functional)} {lv : Option K}
+    {ys : List K} {cols : List (List K)} {w : Option (List K)} {rows : List (DecompRow K)}
+    (h : decompose sf fn lv ys cols w = .ok rows) (i : Nat) (hi : i < cols.length)
+    (hr : i < rows.length) : decompose sf fn lv ys [cols[i]] w = .ok [rows[i]] := by
+  obtain ⟨f, lv', marg, sm, hv, hs, hm, hrows⟩ := (dec_ok_iff sf fn lv ys cols w rows).mp h
+  refine (dec_ok_iff sf fn lv ys [cols[i]] w [rows[i]]).mpr ⟨f, lv', marg, sm, hv, ?_, hm, ?_⟩
+  · obtain ⟨h1, h2, h3⟩ := (dec_shape_ok ys cols w).mp hs
+    refine (dec_shape_ok ys [cols[i]] w).mpr ⟨?_, h2, h3⟩
+    intro c hc
+    rw [List.mem_singleton] at hc
+    rw [hc]
+    exact h1 _ (List.getElem_mem hi)
+  · rw [dec_mapM_single, dec_mapM_get hrows i hi hr]
+    rfl
+
+/-- … and conversely: if every single-column call succeeds, the matrix call succeeds with the
+collected rows -/
+theorem dec_columns_collect {sf : SF K} {fn : Option (Option Functional)} {lv : Option K}
+    {ys : List K} {cols : List (List K)} {w : Option (List K)} {rows : List (DecompRow K)}
+    (hne : cols ≠ []) (hlen : rows.length = cols.length)
+    (h : ∀ i (hi : i < cols.length) (hr : i < rows.length),
+      decompose sf fn lv ys [cols[i]] w = .ok [rows[i]]) :
+    decompose sf fn lv ys cols w = .ok rows := by
+  have h0len : 0 < cols.length := List.length_pos_iff.mpr hne
+  obtain ⟨f, lv', marg, sm, hv, hs, hm, _⟩ :=
+    (dec_ok_iff sf fn lv ys [cols[0]] w [rows[0]]).mp (h 0 h0len (by omega))
+  refine (dec_ok_iff sf fn lv ys cols w rows).mpr ⟨f, lv', marg, sm, hv, ?_, hm, ?_⟩
+  · obtain ⟨_, h2, h3⟩ := (dec_shape_ok ys [cols[0]] w).mp hs
+    refine (dec_shape_ok ys cols w).mpr ⟨?_, h2, h3⟩
+    intro c hc
+    obtain ⟨i, hi, rfl⟩ := List.getElem_of_mem hc
+    obtain ⟨_, _, _, _, _, hs', _, _⟩ :=
+      (dec_ok_iff sf fn lv ys [cols[i]] w [rows[i]]).mp (h i hi (by omega))
+    exact ((dec_shape_ok ys [cols[i]] w).mp hs').1 _ (by simp)
+  · rw [dec_mapM_ok]
+    refine List.forall₂_iff_get.mpr ⟨hlen.symm, ?_⟩
+    intro i hi hr
+    obtain ⟨f', lv'', marg', sm', hv', _, hm', hrow⟩ :=
+      (dec_ok_iff sf fn lv ys [cols[i]] w [rows[i]]).mp (h i hi hr)
+    rw [hv] at hv'
+    cases hv'
+    rw [hm] at hm'
+    cases hm'
+    rw [dec_mapM_single] at hrow
+    show dec_row sf f lv' ys w sm cols[i] = .ok rows[i]
+    cases hd : dec_row sf f lv' ys w sm cols[i] with
+    | error e => rw [hd] at hrow; cases hrow
+    | ok r =>
+      rw [hd] at hrow
+      have := Except.ok.inj hrow
+      simp only [List.cons.injEq, and_true] at this
+      rw [this]
+
+end Struct5
+
+section Ordered
+variable {K : Type} [Field K] [LinearOrder K] [IsStrictOrderedRing K] [ScoreOps K] [Inhabited K]
+
+/-- **`median` = quantile at level `half`**: whatever level is passed along with `median` -/
+theorem dec_alias_median (sf : SF K) (lv : Option K) (ys : List K) (cols : List (List K))
+    (w : Option (List K)) :
+    decompose sf (some (some .median)) lv ys cols w
+      = decompose sf (some (some .quantile)) (some half) ys cols w := by
+  have h1 : dec_validate sf (some (some .median)) lv = .ok (Functional.quantile, (half : K)) := by
+    unfold dec_validate
+    cases lv <;> rfl
+  have h2 : dec_validate sf (some (some .quantile)) (some half)
+      = .ok (Functional.quantile, (half : K)) := by
+    unfold dec_validate
+    have hc : ¬ ((Functional.quantile = .expectile ∨ Functional.quantile = .quantile) ∧
+        ((half : K) ≤ 0 ∨ 1 ≤ (half : K))) := by
+      rintro ⟨_, h | h⟩
+      · exact absurd half_pos' (not_lt.mpr h)
+      · exact absurd half_lt_one (not_lt.mpr h)
+    show (if _ then _ else _) = _
+    rw [if_neg hc]
+    rfl
+  rw [dec_eq_of_validate h1, dec_eq_of_validate h2]
+
+end Ordered
+
 end MD
